@@ -592,14 +592,40 @@ func runC12(t *simrt.Tape, o Opts) Outcome {
 				violate("create-failed/"+im.name, "%s: fault-free creation failed: %v", desc(), err)
 				return
 			}
+			withCloser := !swept && t.Choose(3, "concurrent-closer") == 1
+			var closer *simrt.Task
+			var closeErr error
+			inside := func() {
+				if withCloser && closer == nil {
+					// a Close arrives while the reader is inside: it must park until the reader leaves
+					closer = s.Go("closer", func() { closeErr = sec.Close() })
+					s.Point(simrt.KSeam, "reader.inside")
+				}
+			}
 			arm()
 			ran := false
 			if c12Ops[op] == "WithBytes" {
-				err = sec.WithBytes(func(b []byte) error { ran = true; return nil })
+				err = sec.WithBytes(func(b []byte) error { ran = true; inside(); return nil })
 			} else {
-				_, err = sec.WithBytesFunc(func(b []byte) ([]byte, error) { ran = true; return nil, nil })
+				_, err = sec.WithBytesFunc(func(b []byte) ([]byte, error) { ran = true; inside(); return nil, nil })
 			}
 			disarm()
+			if closer != nil {
+				// the pending Close must complete once the reader has left, whatever failed in the release
+				count(st.Oracle, "pending-close-completes")
+				s.Join(closer)
+				if closeErr != nil {
+					// a Close that reports failure can be retried
+					if rerr := sec.Close(); rerr != nil {
+						violate("close-not-retriable/"+im.name, "%s: the Close that waited for the reader failed (%v) and its retry failed too: %v", desc(), closeErr, rerr)
+					}
+				}
+				checkNoRemains("access with a concurrent Close")
+				if d := securememory.InUseCounter.Count() - inuse0; d != 0 && len(viols) == 0 {
+					violate("inuse-counter/"+im.name+"/"+c12Ops[op], "%s: secret.inuse counter is off by %d after the concurrent Close", desc(), d)
+				}
+				return
+			}
 			count(st.Oracle, "access-under-fault")
 			if fired != "" && err == nil {
 				violate("swallowed-failure/"+im.name+"/"+c12Ops[op], "%s: a protection change failed during the access but no error was returned (callback ran: %v)", desc(), ran)
@@ -642,6 +668,14 @@ func runC12(t *simrt.Tape, o Opts) Outcome {
 				return
 			}
 			if fired != "" {
+				// between the failed Close and its retry the secret is either refused or intact, never wrong bytes
+				count(st.Oracle, "access-after-failed-close")
+				var seen []byte
+				aerr := sec.WithBytes(func(b []byte) error { seen = append([]byte(nil), b...); return nil })
+				if aerr == nil && !bytes.Equal(seen, want) {
+					violate("wrong-bytes-after-failed-close/"+im.name, "%s: after a failed Close a reader was admitted and saw bytes that are not the secret (all zero: %v)", desc(), !bytes.ContainsFunc(seen, func(r rune) bool { return r != 0 }))
+					return
+				}
 				// a failed Close can be retried to completion
 				count(st.Oracle, "close-retry")
 				if rerr := sec.Close(); rerr != nil {
